@@ -723,8 +723,17 @@ class PoolIsolationMon(Monitor):
                 doubled = feq(float(a.cpu), float(dc)) and feq(float(a.ram), float(dr))
                 takeall = feq(float(a.cpu), float(avail[k][0])) and feq(float(a.ram), float(avail[k][1])) and \
                     (dc >= avail[k][0] or dr >= avail[k][1])
-                if not (doubled or takeall):
-                    h.problem(("C16",), "retry-size", f"retry sized ({a.cpu}, {a.ram}); want doubled ({dc}, {dr}) or the whole free pool {avail[k]}")
+                # the statement fixes the *request* (doubled); how a request that does not fit into what is free is
+                # cut down is left open: each component is either the doubled one or what the pool has left
+                clamp = (dc >= avail[k][0] or dr >= avail[k][1]) and \
+                    (feq(float(a.cpu), float(dc)) or feq(float(a.cpu), float(avail[k][0]))) and \
+                    (feq(float(a.ram), float(dr)) or feq(float(a.ram), float(avail[k][1])))
+                if doubled:
+                    h.ev("retries_sized_doubled")
+                elif takeall or clamp:
+                    h.ev("retries_sized_to_free_remainder")
+                if not (doubled or takeall or clamp):
+                    h.problem(("C16",), "retry-size", f"retry sized ({a.cpu}, {a.ram}); want doubled ({dc}, {dr}) or cut down to the free remainder {avail[k]}")
                 for o in a.ops:
                     self.retry.pop(id(o), None)
             if 0 <= a.pool_id < len(avail):
